@@ -302,7 +302,8 @@ theorem smb_loops_reencode (c : Cmd) (hmem : c ∈ commands) (hm : MirrorLoops c
 
 /-! ## slot locality -/
 
-/-- **C04, slot locality.**  When `slotRange c f = some (lo, hi)` (straight-line marshal program,
+/-- **C04, slot locality.**  When `slotRange c f = some (lo, hi)` (straight-line marshal program — literal terminator
+    bytes in the data block and `range` loops over integer arrays apart: `layoutZ` —,
     exactly one statement touches `f`, namely the emission of a fixed-width parameter slot preceded by
     fixed-width slots only; for an AndX command the range starts behind the four AndX bytes), replacing the value of `f` by anything else for which `Marshal` still
     succeeds changes no byte of the encoded command outside `[lo, hi)` and not its length.  Any codec
@@ -312,9 +313,10 @@ theorem slot_locality (C : Codecs) (c : Cmd) (f : String) (lo hi : Nat) (h : slo
     a.length = b.length ∧ ∀ i, (i < lo ∨ hi ≤ i) → a[i]? = b[i]? :=
   slot_locality_core C c f lo hi h env v a b ha hb
 
-/-- the theorem applies to 206 (command, field) pairs of this tree -/
+/-- the theorem applies to 224 (command, field) pairs of this tree (206 before the layout was read through `layoutZ`:
+    the fixed-width fields in front of a `range` loop over an integer array, and NegotiateResponse's, are among them) -/
 theorem slot_ranges_defined :
-    (commands.flatMap (fun c => (c.fields.map (·.1)).filterMap (fun f => slotRange c f))).length = 205 := by
+    (commands.flatMap (fun c => (c.fields.map (·.1)).filterMap (fun f => slotRange c f))).length = 224 := by
   decide +kernel
 
 /-! ### non-vacuity: a concrete command and concrete field values satisfy every hypothesis -/
